@@ -278,7 +278,8 @@ class QuantizationParameters:
         if not isinstance(other, QuantizationParameters):
             return False
 
-        return self.scale_f32 == other.scale_f32 and self.zero_point == other.zero_point
+        # per-axis parameters are arrays: compare them as a whole
+        return bool(np.array_equal(self.scale_f32, other.scale_f32) and np.array_equal(self.zero_point, other.zero_point))
 
     def is_valid(self) -> bool:
         """Return True if the quantisation parameters have a scale and zero point"""
